@@ -59,7 +59,14 @@ pub enum Case {
     /// input bytes, window-size signals and wakes while output is pending
     Input { keys: Vec<u8>, batch: usize, pending_kb: usize, winch: usize, slow: bool, seed: u64 },
     /// termination signal must surface as Error::Quit
-    Quit { signal: i32, pending_kb: usize, seed: u64 },
+    Quit {
+        signal: i32,
+        pending_kb: usize,
+        /// a second termination signal is raised after the first one was reported, right before drop
+        #[serde(default)]
+        again: bool,
+        seed: u64,
+    },
     /// every prefix of the script, ended in the given way
     Exit { script: Vec<XOp>, mode: ExitMode, odd_termios: u64, seed: u64 },
 }
@@ -503,7 +510,10 @@ fn check_input_case(keys: &[u8], batch: usize, pending_kb: usize, winch: usize, 
     Ok(())
 }
 
-fn check_quit_case(signal: i32, pending_kb: usize, seed: u64, ctx: &mut Ctx) -> Result<(), Fail> {
+fn check_quit_case(signal: i32, pending_kb: usize, again: bool, seed: u64, ctx: &mut Ctx) -> Result<(), Fail> {
+    // with a second signal pending at drop the wait for the sync report is cut short, so the
+    // closing sequence is only judged when nothing else is queued in front of it
+    let pending_kb = if again { 0 } else { pending_kb };
     let (mut session, before) = open_session(Drain::Fast, seed, Some(seed % 8))?;
     let mut term = session.term.take().unwrap();
     if pending_kb > 0 {
@@ -527,6 +537,13 @@ fn check_quit_case(signal: i32, pending_kb: usize, seed: u64, ctx: &mut Ctx) -> 
         "signal:quit-not-reported",
         "signal {signal} was raised but the following polls returned {result} instead of Error::Quit"
     );
+    if again {
+        // impatient user: another termination signal is pending while the terminal is released
+        unsafe {
+            libc::raise(signal);
+        }
+        ctx.feat("quit.second-signal-pending-at-drop");
+    }
     drop(term);
     check_restored(&session, before, "after-quit-signal", true, ctx)?;
     Ok(())
@@ -756,6 +773,7 @@ impl Prop for C17 {
             7 => Case::Quit {
                 signal: *rng.pick(&[libc::SIGTERM, libc::SIGINT, libc::SIGQUIT]),
                 pending_kb: *rng.pick(&[0usize, 50]),
+                again: rng.bool(),
                 seed: rng.next_u64(),
             },
             _ => {
@@ -793,7 +811,7 @@ impl Prop for C17 {
             Case::Input { keys, batch, pending_kb, winch, slow, seed } => {
                 check_input_case(keys, *batch, *pending_kb, *winch, *slow, *seed, ctx)
             }
-            Case::Quit { signal, pending_kb, seed } => check_quit_case(*signal, *pending_kb, *seed, ctx),
+            Case::Quit { signal, pending_kb, again, seed } => check_quit_case(*signal, *pending_kb, *again, *seed, ctx),
             Case::Exit { script, mode, odd_termios, seed } => check_exit_case(script, mode, *odd_termios, *seed, ctx),
         }
     }
